@@ -699,8 +699,10 @@ def resultInRange (r : Int) : Bool :=
   r = SPF_NONE || r = SPF_PASS || r = SPF_NEUTRAL || r = SPF_SOFTFAIL || r = SPF_FAIL || r = SPF_PERMERROR
     || r = SPF_TEMPERROR || r = SPF_DNS_HARD_ERROR || r = -1
 
-/-- bytes that may appear in xmitstat.spfexp: printable ASCII (and TAB, which record_bad_token keeps) -/
-def expByteOk (b : Byte) : Bool := b == TAB || (32 ≤ b.toNat && b.toNat ≤ 126)
+/-- what the property demands of text that came from DNS: no line break, no non-ASCII byte.
+(DEL, 0x7f, is ASCII and no line break: the sanitiser of the `exp=` text lets it through, and the
+property does not forbid it.) -/
+def expByteOk (b : Byte) : Bool := b.toNat < 128 && b != CR && b != LF
 
 def parseInt (s : String) : Option Int :=
   if s.startsWith "-" then (s.drop 1).toNat?.map fun n => -(n : Int) else s.toNat?.map fun n => (n : Int)
